@@ -167,6 +167,13 @@ def check_registry_and_mro(ctx, R):
         R.ob('DASK-REGISTRY', 'streamz.dask.DaskStream', name, ok,
              'DaskStream.%s does not resolve to a Dask-aware class (found %s): the segment would silently run the local node'
              % (name, c.fq if c else None), '%s:%d' % (c.file, c.node.lineno) if c else ds.file)
+        if name == 'gather' and c is not None:
+            # gather ends the Dask segment: what follows it is local again, so the node it creates must offer the *core* API
+            # (were it a DaskStream, .gather().map(f) would submit f to the cluster and hand futures to the local sinks)
+            R.ob('DASK-REGISTRY', c.fq if hasattr(c, 'fq') else 'streamz.dask.gather', 'ends-the-segment',
+                 c.isa(M.stream) and not c.isa(ds),
+                 'gather is a DaskStream: the nodes chained after .gather() are Dask nodes again and deliver futures, not values',
+                 '%s:%d' % (c.file, c.node.lineno))
         if c is not None and name in ('scatter',):
             core_api = M.api_of(M.stream)
             R.ob('DASK-REGISTRY', 'streamz.core.Stream', 'scatter', core_api.get('scatter') is c or 'scatter' in M.stream.methods,
